@@ -154,6 +154,9 @@ def build_workflow(prog: dict):
             # deterministic, creation-ordered ids (ULID order inside one millisecond is random)
             te.id = "T%03d%03d-%s" % (i, j, td["name"])
             tasks.append(te)
+        if sd.get("lazy"):      # tasks are built by the registered StageDefinitionBuilder at planning time
+            ctx["_lazy"] = True
+            tasks = []
         kw: dict[str, Any] = {}
         if sd["join"] != "AND":
             kw["join_type"] = JoinType[sd["join"]]
@@ -211,6 +214,15 @@ def register_builder(prog: dict) -> None:
         def _kids(self, stage, owner):
             pr = CURRENT["prog"] or {"stages": []}
             return [sd for sd in pr["stages"] if sd["parent"] == stage.ref_id and sd["owner"] == owner]
+
+        def build_tasks(self, stage):
+            from stabilize import TaskExecution
+
+            if not stage.context.get("_lazy"):
+                return []
+            names = list((stage.context.get("_script") or {}).keys())
+            return [TaskExecution.create(name=n, implementing_class=task_class_name(n), stage_start=(j == 0),
+                                         stage_end=(j == len(names) - 1)) for j, n in enumerate(names)]
 
         def before_stages(self, stage, graph) -> None:
             for sd in self._kids(stage, "BEFORE"):
@@ -291,6 +303,7 @@ def tla_program(prog: dict) -> dict:
         "owner": {s["ref"]: s["owner"] for s in st},
         "enabled": {s["ref"]: ("none" if s["enabled"] is None else ("yes" if s["enabled"] else "no"))
                     for s in st},
+        "lazy": {s["ref"]: bool(s.get("lazy")) for s in st},
         "maxJumps": prog.get("maxJumps", -1) if prog.get("maxJumps", -1) >= 0 else 10,
     }
 
